@@ -175,6 +175,39 @@ def main():
             over += o["res"] == "err:overflow"
     if wpeak > limit:
         ck.violation("write buffer grew to %d > limit %d" % (wpeak, limit), {"side": "out", "peak": wpeak}, tag="wpeak")
+    # ---- production limit (no hook cfg): spec-level run of the inbound theorems' conclusions
+    prod_cases, prod_bad = [], 0
+    if not ck.replay:
+        root = harness_root()
+        rc_, log_ = sh("cargo build --offline --bin biglimit --target-dir %s" % os.path.join(root, "target-nohook"),
+                       timeout=1500, cwd=root, env={"RUSTFLAGS": ""})
+        if rc_ != 0:
+            ck.violation("production-limit harness does not build against /repo", {"log": log_[-3000:]}, tag="pbuild",
+                         no_input=True)
+        else:
+            L = prod
+            for i, ch in enumerate([1 << 20, 65536, 256, 100003]):
+                prod_cases.append({"id": i, "kind": "unterminated", "size": L + 3 * step, "chunk": ch, "expect": "over"})
+            for d in (-step - 1, -2, -1, 0, 1, 2, step):
+                prod_cases.append({"id": len(prod_cases), "kind": "frame", "size": L + d, "chunk": ck.rng.choice([65536, 1 << 20, 70001]),
+                                   "expect": "ok" if d < 0 else "over"})
+            inp = "\n".join(json.dumps(c) for c in prod_cases) + "\n"
+            rc_, out_ = sh(os.path.join(root, "target-nohook", "debug", "biglimit"), timeout=600, input=inp)
+            res = {}
+            for l in out_.splitlines():
+                if l.startswith("{"):
+                    r = json.loads(l)
+                    res[r["id"]] = r
+            for c in prod_cases:
+                r = res.get(c["id"], {"crash": True})
+                okay = (c["expect"] == "ok" and str(r.get("res", "")).startswith("ok:")) or \
+                       (c["expect"] == "over" and r.get("res") == "err:overflow" and r.get("consumed") == L)
+                if not okay:
+                    prod_bad += 1
+                    ck.violation("production limit %d: %s of wire size %d in chunks of %d gave %s after consuming %s bytes "
+                                 "(expected %s)" % (L, c["kind"], c["size"], c["chunk"], r.get("res"), r.get("consumed"),
+                                                    "delivery" if c["expect"] == "ok" else "BufferOverflow after exactly %d bytes" % L),
+                                 {"side": "in-production", "case": c, "impl": r}, tag="prod%d" % c["id"])
     hist = {}
     for c in cin + cout:
         hist[c["tag"]] = hist.get(c["tag"], 0) + 1
@@ -184,6 +217,7 @@ def main():
         "traces_validated_against_impl": len(items) + len(witems), "case_classes": hist,
         "inbound_peak_buffer": peak, "outbound_peak_buffer": wpeak, "outbound_overflow_refusals": over,
         "step": step, "limit_under_hook": limit, "production_limit": prod,
+        "production_limit_inbound_runs": len(prod_cases), "production_limit_inbound_failures": prod_bad,
         "inbound_frame_sizes_tried": len({len(bytes.fromhex(c["frames"][0])) + 1 for c in cin if c["tag"] == "frame_size_sweep"}),
     })
     ck.samples.append({"inbound": "frame of wire size s in %d chunks for s around every multiple of %d up to %d" % (5, step, limit + 2 * step)})
@@ -192,7 +226,9 @@ def main():
     ck.assumptions += [
         "correspondence runs use the hook-lowered limit %d (cfg zlink_verif); the theorems are parametric in step and "
         "limit and C17_constants_production re-proves their side conditions for the production constants translated "
-        "from connection/mod.rs (%d); no run with the production limit is made by this check" % (limit, prod),
+        "from connection/mod.rs (%d); with the production limit only the inbound conclusions are exercised (unterminated "
+        "streams and frames of wire size limit-257..limit+256 against a build without the cfg), as testing; outbound at the "
+        "production limit is not run (growth re-serialises from scratch every 256 bytes)" % (limit, prod),
     ]
     ck.finish(rule="a case = one frame size x chunking (inbound) or one send history near the limit (outbound); "
                    "distinct by hash of the script")
